@@ -331,15 +331,21 @@ Theorem C02_pinit_psx : forall P w s0, c_faults (pc_reader P) = [] -> c_fix_move
 Proof. exact pinit_psx. Qed.
 Print Assumptions C02_pinit_psx.
 
-(* the pinned code (c_fix_moveout = false) on the F10d history  mkdir R/b; mkdir R/b/b; mv R/b/b O/x; mv O/x R/n;
+(* the pinned code (cfgo false: c_fix_moveout = false AND c_fix_relabel = false, the code before the repairs of F10 and
+   F10e; either repair alone covers this history, C02_f10d_either_repair) on the F10d history  mkdir R/b; mkdir R/b/b; mv R/b/b O/x; mv O/x R/n;
    mv R/b R/m; touch R/n/f : R/n is not covered at the end (its descriptor was re-keyed through the stale entry) *)
 Theorem C02_f10d_pinned_refuted :
   exists w' k' r', run_ops (cfgo false) f10d_ops = Some (w', k', r') /\ k_queue k' = [] /\ ~ Cover (cfgo false) (w_fs w') k' r'.
 Proof. exact f10d_pinned_refuted. Qed.
 Print Assumptions C02_f10d_pinned_refuted.
 
+Example C02_f10d_either_repair :
+  (exists w' k' r', run_ops (cfgo2 false true) f10d_ops = Some (w', k', r') /\ Cover (cfgo2 false true) (w_fs w') k' r') /\
+  (exists w' k' r', run_ops (cfgo2 true false) f10d_ops = Some (w', k', r') /\ Cover (cfgo2 true false) (w_fs w') k' r').
+Proof. exact f10d_either_repair. Qed.
+
 (* pinned code, F10b history  mkdir R/b; mv R/b O/x; mkdir R/b; mv R/b R/a : the departed directory keeps its kernel
-   watch for ever (3 watches for the 2 directories of the tree) *)
+   watch for ever (3 watches for the 2 directories of the tree); does not depend on c_fix_relabel *)
 Theorem C02_f10b_pinned_stale :
   exists w' k' r', run_ops (cfgo false) f10b_ops = Some (w', k', r') /\ length (k_watches k') = 3%nat /\
     length (filter (fun e => f_dir e && scopeb (cfgo false) (f_path e)) (w_fs w')) = 2%nat.
